@@ -2316,6 +2316,13 @@ PREFIX (_translate) (region_type_t *region, int x, int y)
                 FREE_DATA (region);
                 region->data = (region_data_type_t *)NULL;
 	    }
+            else if (region->data->numRects == 0)
+            {
+                region->extents.x2 = region->extents.x1;
+                region->extents.y2 = region->extents.y1;
+                FREE_DATA (region);
+                region->data = pixman_region_empty_data;
+	    }
             else
 	    {
 		pixman_set_extents (region);
